@@ -204,6 +204,12 @@ pub fn view<P: Pay + Send + Sync>(h: &H<P>) -> R<View> {
                 }
             }
             counts.push(("ArcUnion::strong_count", ArcUnion::strong_count(u)));
+            ensure!(
+                u.as_second().is_none() && u.as_first().map(|b| b.get() as *const P as usize) == Some(data),
+                "C12",
+                "variant",
+                "as_first()/as_second() of a first-variant union disagree with borrow()"
+            );
         }
         H::U2(u) => {
             ensure!(
@@ -229,6 +235,12 @@ pub fn view<P: Pay + Send + Sync>(h: &H<P>) -> R<View> {
                 }
             }
             counts.push(("ArcUnion::strong_count", ArcUnion::strong_count(u)));
+            ensure!(
+                u.as_first().is_none() && u.as_second().map(|b| b.get() as *const P as usize) == Some(data),
+                "C12",
+                "variant",
+                "as_first()/as_second() of a second-variant union disagree with borrow()"
+            );
         }
         H::UU(u, second) => {
             ensure!(
@@ -1233,14 +1245,14 @@ impl<'s, P: Pay + Send + Sync> W<'s, P> {
                         if sole {
                             ensure!(
                                 nb == m_block,
-                                "C08",
+                                "C08,C03",
                                 "cow",
                                 "{} moved a solely owned value to a new allocation",
                                 api
                             );
                             ensure!(
                                 tk::clones() == clones0,
-                                "C08",
+                                "C08,C03",
                                 "cow",
                                 "{} cloned a solely owned value",
                                 api
@@ -1333,7 +1345,7 @@ impl<'s, P: Pay + Send + Sync> W<'s, P> {
                 if sole {
                     ensure!(
                         nb == m_block,
-                        "C08",
+                        "C08,C03",
                         "cow",
                         "OffsetArc::make_mut moved a solely owned value"
                     );
